@@ -22,7 +22,7 @@ func Generated() []Prog {
 		{"top", func(b string) string { return b + "\n" }},
 		{"def", func(b string) string { return "def m1(x)\n" + indent(b, 1) + "\n  x\nend\nm1(1)\n" }},
 		{"class", func(b string) string {
-			return "class K1\n  def initialize(v)\n    @v = v\n  end\n\n  def run\n" + indent(b, 2) + "\n    @v\n  end\nend\nk = K1.new(1)\nk.run\nk.missing\n"
+			return "class Widget\n  def initialize(v)\n    @v = v\n  end\n\n  def run\n" + indent(b, 2) + "\n    @v\n  end\nend\nk = Widget.new(1)\nk.run\nk.missing\n"
 		}},
 		{"ifelse", func(b string) string {
 			return "c = 1\nif c == 1\n" + indent(b, 1) + "\nelsif c == 2\n  c.zip\nelse\n" + indent(b, 1) + "\nend\nc.after\n"
@@ -39,6 +39,23 @@ func Generated() []Prog {
 		{"begin", func(b string) string { return "begin\n" + indent(b, 1) + "\nrescue => e\n  e.oops\nend\n1.after\n" }},
 	}
 	var out []Prog
+	// hand-written shapes the templates below do not produce: attribute setters/getters, class methods,
+	// modules, two narrowed variables with else, keyword arguments, nested classes
+	extra := []string{
+		"class Gadget\n  def capacity=(v)\n    @raw = v\n  end\nend\nk = Gadget.new\nk.capacity = 1\nk.capacity\nk.capacity.foo\n",
+		"class Gizmo\n  def volume= v\n    '1'\n  end\nend\ng = Gizmo.new\ndbtp g.volume = 1\n",
+		"class Sensor\n  def level=(v)\n    @level = v\n  end\n\n  def level\n    @level\n  end\nend\nk = Sensor.new\nk.level = \"s\"\nk.level.foo\n",
+		"class Factory\n  def self.build(a)\n    a\n  end\n\n  def run(b)\n    b.upcase\n  end\nend\nv = Factory.build(1)\nv.zork\nFactory.new.run(1)\n",
+		"module Mixhelp\n  def helper\n    1\n  end\nend\nclass Robot\n  include Mixhelp\n  def go\n    helper.zork\n  end\nend\nRobot.new.go\nRobot.new.nothing\n",
+		"va = true ? 1 : nil\nvb = true ? 1.5 : \"s\"\nif va.is_a?(Integer) && vb.is_a?(Float)\n  dbtp va\n  dbtp vb\nelse\n  dbtp va\n  dbtp vb\nend\ndbtp va\ndbtp vb\n",
+		"va = true ? 1 : nil\nvb = true ? \"s\" : nil\nunless va.nil? && vb.nil?\n  dbtp va\n  dbtp vb\nelse\n  dbtp va\n  dbtp vb\nend\n",
+		"def kw(p0, ka:, kb: 2)\n  dbtp ka\n  kb\nend\nr1 = kw(1, ka: \"s\", kb: 3)\nr2 = kw(1, kb: 3, ka: 1.5)\nr2.zork\n",
+		"module Outer\n  class Inner\n    def val\n      1\n    end\n  end\nend\nclass Inner\n  def val\n    \"s\"\n  end\nend\no = Outer::Inner.new\ndbtp o.val\ni = Inner.new\ndbtp i.val\n",
+		"class Animal\n  def shared\n    1\n  end\n\n  private\n\n  def hidden\n    2\n  end\nend\nclass Puppy < Animal\n  def use\n    hidden\n    shared\n  end\nend\nc = Puppy.new\nc.use\nc.hidden\nc.shared.zork\n",
+	}
+	for i, s := range extra {
+		out = append(out, Prog{Name: fmt.Sprintf("./g_extra_%d.rb", i), Src: s})
+	}
 	for wi, w := range wrap {
 		for si, s := range stmts {
 			out = append(out, Prog{Name: fmt.Sprintf("./g_%s_%d.rb", w.name, si), Src: w.f(s)})
